@@ -88,6 +88,24 @@ Theorem c01_case_actors_wf : forall (l : log) (acts : list (list cop)),
 Proof. exact actors_of_wf. Qed.
 Print Assumptions c01_case_actors_wf.
 
+(* the task counter: any number of concurrent emitters of any tasks - the stdout pump, the stderr
+   pump and the control paths of one task share its counter - under any schedule; the span of the
+   guard in TaskEmitter::emit (lock .. choose .. publish .. log append .. unlock) is re-extracted from
+   the source on every run (Gen/AppendOps.v, gen_task_emit) *)
+Theorem c01_task_counter : forall (es : list (etype * N)) (sched : list N) (st : state),
+  SInv st -> Forall (fun e => is_task (fst e) = true) es ->
+  Valid (s_log (run sched (spawn (task_actors es) st))).
+Proof. exact task_counter_valid. Qed.
+Print Assumptions c01_task_counter.
+
+(* ... and a guard that ends before the log append does not suffice: two emitters of one task, the
+   log reads seq 1 before seq 0 *)
+Theorem c01_task_counter_narrow_span_refuted :
+  validate (s_log (run w_task_narrow_sched (spawn w_task_narrow_actors empty_state))) = false
+  /\ map seq (s_log (run w_task_narrow_sched (spawn w_task_narrow_actors empty_state))) = [1; 0].
+Proof. exact w_task_narrow_invalid. Qed.
+Print Assumptions c01_task_counter_narrow_span_refuted.
+
 (* ---- the three ways the code violated the property (each replayed on the real code, see notes) ---- *)
 (* S5 (repaired in /repo 3ef7dd4): branch / handoff as they were - child frames 0 and 1 written
    outside the seq mutex while the child is already listable - against one post to the newest
